@@ -78,7 +78,7 @@ class Recorder:
             if f["kind"] == "Enqueue":
                 e["sid"] = self.sid_of(f["state"], new=True)
             elif f["kind"] == "Solution":
-                e["tid"] = f["state"].tree.id
+                e["tid"] = id(f["state"].tree) & 0x3FFFFFFF     # object identity: the admitted tree object is the one returned later
             self.events.append(e)
         elif ev == "ProbeBegin":
             self.probe += 1
@@ -134,7 +134,7 @@ def run_case(case):
         try:
             t = solver.solve()
             tj = pj.tree_to_json(t)
-            rec.events.append({"ev": "Return", "tid": t.id, "tree": tj, "qlen": len(solver.queue), "blen": len(solver.solutions)})
+            rec.events.append({"ev": "Return", "tid": id(t) & 0x3FFFFFFF, "tree": tj, "qlen": len(solver.queue), "blen": len(solver.solutions)})
             out["solutions"].append(str(t))
         except StopIteration:
             rec.events.append({"ev": "Stop"})
